@@ -25,6 +25,16 @@ use crate::error::Error;
 use super::{ExprType, FlagsState, GeneratorState};
 
 impl<'a> GeneratorState<'a> {
+    /// STX and STY do not set N and Z: flags that described a memory cell may now be stale
+    fn flags_after_index_store(&mut self) {
+        if matches!(
+            self.flags,
+            FlagsState::Absolute(..) | FlagsState::AbsoluteX(_) | FlagsState::AbsoluteY(_)
+        ) {
+            self.flags = FlagsState::Unknown;
+        }
+    }
+
     pub(crate) fn generate_assign(
         &mut self,
         left: &ExprType,
@@ -211,6 +221,7 @@ impl<'a> GeneratorState<'a> {
                         match left {
                             ExprType::Absolute(_, _, _) => {
                                 self.asm(STX, left, pos, high_byte)?;
+                                self.flags_after_index_store();
                                 /*
                                 if !eight_bits {
                                     if *offset == 0 {
@@ -250,6 +261,7 @@ impl<'a> GeneratorState<'a> {
                                     && v.var_type != VariableType::CharPtr
                                 {
                                     self.asm(STX, left, pos, high_byte)?;
+                                    self.flags_after_index_store();
                                 } else {
                                     if self.acc_in_use {
                                         self.sasm(PHA)?;
@@ -295,6 +307,7 @@ impl<'a> GeneratorState<'a> {
                         match left {
                             ExprType::Absolute(_, _, _) => {
                                 self.asm(STY, left, pos, high_byte)?;
+                                self.flags_after_index_store();
                                 /*
                                 if !eight_bits {
                                     if *offset == 0 {
@@ -332,6 +345,7 @@ impl<'a> GeneratorState<'a> {
                                 let v = self.compiler_state.get_variable(variable);
                                 if v.memory == VariableMemory::Zeropage {
                                     self.asm(STY, left, pos, high_byte)?;
+                                    self.flags_after_index_store();
                                 } else {
                                     if self.acc_in_use {
                                         self.sasm(PHA)?;
